@@ -24,7 +24,7 @@ POOL = {
 
 
 def content_bytes(c):
-    """Decode a content string: 'p:<pool>', 'h:<hex>', 'r:<n>:<hex>' (repeat)."""
+    """Decode a content string: 'p:<pool>', 'h:<hex>', 'r:<n>:<hex>' (repeat), 'z:<size>:<hex>' (exact size)."""
     kind, _, rest = c.partition(":")
     if kind == "p":
         return POOL[rest]
@@ -33,6 +33,11 @@ def content_bytes(c):
     if kind == "r":
         n, _, hx = rest.partition(":")
         return bytes.fromhex(hx) * int(n)
+    if kind == "z":
+        # exact size: 'z:<size>:<hex pattern>' (pattern repeated and cut)
+        size, _, hx = rest.partition(":")
+        pat = bytes.fromhex(hx) or b"\0"
+        return (pat * (int(size) // len(pat) + 1))[: int(size)]
     raise ValueError(c)
 
 
